@@ -486,6 +486,16 @@ func (m *Model) ruleCOLL(r *Results) {
 				continue
 			}
 			ck := key + " / " + u.Table
+			// frozen list of bucket-wide statements, by shape
+			bucketWide := func(ck string) {
+				if st.Kind == sqlp.SDelete && u.Role == "target" && u.Table == "documents" && len(u.Conjuncts) == 1 && noBodyTest(u.Conjuncts[0]) {
+					r.ok(rule, ck, pos, "bucket-wide purge statement (by specification)")
+				} else if st.Kind == sqlp.SSelect && st.Select != nil && len(st.Select.Cols) == 1 && isAgg(st.Select.Cols[0].Expr, "min", "exp") && u.Table == "documents" {
+					r.ok(rule, ck, pos, "bucket-wide min-expiry query (single timer per bucket)")
+				} else {
+					r.bad(rule, ck, pos, "bucket method touches collection-owned table %s; only the purge statement and the min-expiry query may be bucket-wide", u.Table)
+				}
+			}
 			switch owner {
 			case m.A.CollectionType:
 				ok, why := m.useConstrained(s, u, uses, idFields, 0)
@@ -521,19 +531,31 @@ func (m *Model) ruleCOLL(r *Results) {
 					r.bad(rule, ck, pos, "statement of a collection method ranges over %s without being restricted to the receiver's collection: %s", u.Table, why)
 				}
 			case m.A.BucketType:
-				// frozen list of bucket-wide statements, by shape
-				if st.Kind == sqlp.SDelete && u.Role == "target" && u.Table == "documents" && len(u.Conjuncts) == 1 && noBodyTest(u.Conjuncts[0]) {
-					r.ok(rule, ck, pos, "bucket-wide purge statement (by specification)")
-				} else if st.Kind == sqlp.SSelect && st.Select != nil && len(st.Select.Cols) == 1 && isAgg(st.Select.Cols[0].Expr, "min", "exp") && u.Table == "documents" {
-					r.ok(rule, ck, pos, "bucket-wide min-expiry query (single timer per bucket)")
-				} else {
-					r.bad(rule, ck, pos, "bucket method touches collection-owned table %s; only the purge statement and the min-expiry query may be bucket-wide", u.Table)
-				}
+				bucketWide(ck)
 			default:
 				// a helper function: decide it in the context of each of its callers
 				callers := m.staticCallersOf(rootOf(s.Fn))
 				if len(callers) == 0 {
 					r.bad(rule, ck, pos, "statement on collection-owned table %s outside any collection or bucket method", u.Table)
+					break
+				}
+				// a helper (or a method handed to the transaction runner as a bound value) that only
+				// bucket methods use is judged like a bucket method
+				onlyBucket := true
+				for _, cs := range callers {
+					ctx := rootOf(cs.Parent())
+					if strings.HasSuffix(cs.Parent().Name(), "$bound") {
+						ctx = nil
+						if fr := m.closureFrame(rootOf(s.Fn)); fr.recv != nil && fr.caller != nil {
+							ctx = rootOf(fr.caller.fn)
+						}
+					}
+					if ctx == nil || m.methodOwner(ctx) != m.A.BucketType {
+						onlyBucket = false
+					}
+				}
+				if onlyBucket {
+					bucketWide(ck + " via bucket methods")
 					break
 				}
 				for _, cs := range callers {
